@@ -17,7 +17,13 @@ CHUNK = 50
 RULE = ("seeded inputs that make mitmproxy answer with its own HTML error page over HTTP/1: malformed request lines, "
         "invalid or conflicting framing headers, invalid header names, missing Host, oversized bodies (body_size_limit), "
         "connect failures whose OS error text is attacker-influenced, origin protocol errors (bad status lines, bad "
-        "chunk framing, invalid Content-Length, early close) and addon-set connection errors; every attacker-controlled "
+        "chunk framing, invalid Content-Length, early close) and addon-set connection errors; CONNECT requests in regular "
+        "mode (rng site c12-connect, ~15% of runs) whose upstream connect fails (refused/unreachable/timeout/unresolvable "
+        "with scripted OS error text, addon-set error text, addon-redirected host with markup) under "
+        "connection_strategy eager (mitmproxy answers the CONNECT itself) and lazy (200, then the error page inside the "
+        "tunnel), plus reachable-target and markup-in-authority controls; a non-2xx answer to CONNECT is judged as an "
+        "error page only if its body is an HTML document or it declares an HTML type (a plain-text answer without "
+        "content type is not an HTML page); every attacker-controlled "
         "string carries a unique marker wrapped in markup (<zqN>, \"zqN', &zqN;). Oracle on every response the client "
         "reads that carries Server: mitmproxy and a 4xx/5xx status: Content-Type text/html; P reads it as one complete, "
         "correctly framed response in the context of the request method and nothing follows it; no marker appears with "
@@ -30,7 +36,10 @@ ASSUMPTIONS = ["an error page is recognised by the Server: mitmproxy header and 
                "P (peers/h1.py) decides framing"]
 EXPECTED_PROBES = ["error_pages", "marker_in_page", "page_400", "page_502", "page_413_or_body_limit", "connect_error_page",
                    "head_request_error", "error_after_keepalive_exchange", "error_after_head_exchange",
-                   "long_error_page"]
+                   "long_error_page", "connect_tunnel_established", "page_inside_tunnel",
+                   "connect_fail_lazy_page_inside_tunnel", "connect_refused_response", "connect_fail_eager_response",
+                   "connect_fail_eager_marker_in_response", "connect_fail_eager_hook_error_text",
+                   "connect_fail_eager_markup_host"]
 
 MARK = re.compile(rb"zq(\d+)")
 
@@ -39,7 +48,98 @@ def mk(r, n):
     return r.choice([f"<zq{n}>", f"<script>zq{n}</script>", f"\"zq{n}'", f"&zq{n};", f"<img src=x onerror=zq{n}>"])
 
 
+def gen_connect(rc):
+    """CONNECT requests in regular mode whose upstream connect fails (or, as controls, succeeds / is made lazily).
+
+    With connection_strategy=eager mitmproxy connects upstream while it handles the CONNECT and answers a failure
+    itself; with lazy it answers 200 and the failure only shows inside the tunnel (an ordinary error page there)."""
+    n = rc.randrange(100, 999)
+    m = mk(rc, n)
+    if rc.random() < 0.15:
+        m = m * rc.choice([30, 120, 400])
+    strategy = rc.choice(["eager", "eager", "eager", "lazy"])
+    options = {"connection_strategy": strategy}
+    sub = rc.choice(["fail", "fail", "fail", "fail", "fail", "fail", "bad_authority", "reachable"])
+    host = rc.choice(["b.test", "b.test", "c.test", "10.9.8.7"])
+    port = rc.choice([443, 80, 8443])
+    authority = f"{host}:{port}"
+    policy = []
+    markup_host = False
+    errsrc = None
+    tconnect = [{}]
+    if sub == "bad_authority":
+        # markup straight in the authority on the wire: refused with an ordinary 400 page
+        authority = rc.choice([f"{m}:443", f"b.test:{m}", f"b.test{m}:443", f"{m}"]).replace(" ", "")
+    elif sub == "fail":
+        errsrc = rc.choice(["os_markup", "os_markup", "os_plain", "hook_markup"])
+        kind = rc.choice(["refused", "unreachable", "timeout", "dns"])
+        delay = rc.choice([0, 0, 0.2, 20.0 if kind == "timeout" else 0.01])
+        if errsrc == "os_markup":
+            tconnect = [{"error": kind, "errmsg": f"connect to {m} failed", "delay": delay}]
+        elif errsrc == "os_plain":
+            tconnect = [{"error": kind, "delay": delay}]
+        else:
+            # an addon refuses the connection in server_connect with a text of its own
+            tconnect = [{"error": kind, "delay": delay}]
+            policy.append({"hook": "server_connect", "nth": "*", "latency": rc.choice([0, 0, 0.01]),
+                           "action": "set_error", "msg": f"blocked {m}"})
+        if rc.random() < 0.35:
+            # an addon re-points the tunnel (http_connect hook) at a name that contains markup, e.g. taken from a header
+            markup_host = True
+            policy.append({"hook": "http_connect", "nth": 0, "latency": rc.choice([0, 0, 0.01]), "action": "edit",
+                           "which": "request", "edits": [{"k": "host", "value": rc.choice([f"x{m}y.test", m]).replace(" ", "")}]})
+    headers = [["Host", authority if sub != "bad_authority" else "b.test:443"], ["X-M", m]]
+    if rc.random() < 0.3:
+        headers.append(["Proxy-Connection", "keep-alive"])
+    head = f"CONNECT {authority} HTTP/1.1\r\n" + "".join(f"{k}: {v}\r\n" for k, v in headers) + "\r\n"
+    cuts = G.gen_cuts(rc, len(head), rc.choice(["none", "none", "few"]))
+    pre, steps, replies = [], [], {}
+    if rc.random() < 0.3:
+        # the CONNECT follows a clean keep-alive exchange with a reachable origin on the same client connection
+        pm = rc.choice(["HEAD", "GET", "POST"])
+        pb = "hello" if pm == "POST" else ""
+        pdata = f"{pm} http://a.test/p0/clean HTTP/1.1\r\nHost: a.test\r\n" + (f"Content-Length: {len(pb)}\r\n" if pb else "") + "\r\n" + pb
+        steps += [{"op": "send", "data": pdata, "cuts": [], "gaps": []}, {"op": "await", "n": 1, "timeout": 30.0}]
+        replies["0"] = {"data": "HTTP/1.1 200 OK\r\nX-P0: w\r\nContent-Length: 2\r\n\r\n" + ("" if pm == "HEAD" else "ok"),
+                        "then": "keep", "cuts": [], "gaps": [0.0]}
+        pre.append(pm)
+    npre = len(pre)
+    steps += [{"op": "send", "data": head, "cuts": cuts, "gaps": [rc.choice([0.001, 0.01]) for _ in range(len(cuts) + 1)]},
+              {"op": "await", "n": npre + 1, "timeout": 60.0}]
+    inner_method = rc.choice(["GET", "GET", "POST", "HEAD"])
+    ib = "abc" if inner_method == "POST" else ""
+    ipath = f"/r0/{m}".replace(" ", "%20")
+    inner = (f"{inner_method} {ipath} HTTP/1.1\r\nHost: {host}\r\nX-M: {m}\r\n"
+             + (f"Content-Length: {len(ib)}\r\n" if ib else "") + "\r\n" + ib)
+    follow = None
+    if sub == "reachable" or (sub == "fail" and strategy == "lazy"):
+        # a tunnel is (or seems) established: plain HTTP/1 inside it
+        follow = "inner"
+        steps += [{"op": "send", "data": inner, "cuts": [], "gaps": []}, {"op": "await_close", "timeout": 40.0}]
+    elif rc.random() < 0.4:
+        # the refused CONNECT is followed by an ordinary proxy request on the same connection
+        follow = "second"
+        steps += [{"op": "send", "data": "GET http://a.test/r1/second HTTP/1.1\r\nHost: a.test\r\n\r\n", "cuts": [], "gaps": []},
+                  {"op": "await", "n": npre + 2, "timeout": 10.0}]
+    steps.append({"op": "fin"})
+    a_origin = {"kind": "h1", "replies": dict(replies), "idle_close": 5.0, "connect": [{}]}
+    if follow == "second":
+        a_origin["replies"][str(npre)] = {"data": "HTTP/1.1 200 OK\r\nX-R1: w\r\nContent-Length: 2\r\n\r\nok", "then": "keep",
+                                          "cuts": [], "gaps": [0.0]}
+    # the CONNECT target: never reachable in the fail family; in the reachable control it answers garbage with a marker
+    t_origin = {"kind": "h1", "idle_close": 5.0, "connect": tconnect,
+                "replies": {"0": {"data": f"HTTP/1.1 2x0 {m}\r\nX: y\r\n\r\n", "then": "fin", "cuts": [], "gaps": [0.0]}}}
+    return {"family": "errpage-connect_tunnel_" + sub, "modes": ["regular"], "eager": rc.random() < 0.5, "options": options,
+            "pre": pre, "clients": [{"steps": steps, "methods": pre + ["CONNECT", "GET"], "original_dst": None}],
+            "origins": {"a.test:80": a_origin, "*": t_origin}, "policy": policy, "faults": [], "settle": 30.0,
+            "kind": "connect_tunnel_" + sub, "method": "CONNECT", "inner_method": inner_method, "follow": follow,
+            "markup_host": markup_host, "errsrc": errsrc}
+
+
 def generate(rng, tier):
+    rc = rng.at("c12-connect")
+    if rc.random() < 0.15:
+        return gen_connect(rc)
     r = rng.at("c12")
     mode = r.choice(["regular", "regular", "reverse:http://a.test:80", "transparent"])
     form = "absolute" if mode == "regular" else "origin"
@@ -153,6 +253,50 @@ def oracle(sc, obs):
         rp = P.parse_responses(c.received, methods + [b"GET"] * 3, c.proxy_closed)
         pages = [m for m in rp.msgs if (m.get(b"server") or b"").startswith(b"mitmproxy") and m.status >= 400]
         any_page = b"Server: mitmproxy" in c.received
+        if sc["kind"].startswith("connect_tunnel_"):
+            npre = len(sc.get("pre", []))
+            if rp.tunnel_from is not None:
+                # 2xx to the CONNECT: what follows is the HTTP/1 conversation inside the tunnel
+                bump("connect_tunnel_established")
+                ip = P.parse_responses(rp.rest, [H.B(sc["inner_method"])] + [b"GET"] * 2, c.proxy_closed)
+                inner = [m for m in ip.msgs if (m.get(b"server") or b"").startswith(b"mitmproxy") and m.status >= 400]
+                if inner:
+                    bump("page_inside_tunnel")
+                    if sc["options"]["connection_strategy"] == "lazy" and sc["kind"] == "connect_tunnel_fail":
+                        bump("connect_fail_lazy_page_inside_tunnel")
+                pages += inner
+                if b"Server: mitmproxy" in rp.rest and ip.status != "ok":
+                    v.append({"class": "error_page_misframed",
+                              "key": {"status": ip.status, "reason": re.sub(r"[^a-zA-Z ].*$", "", ip.reason)[:40],
+                                      "head_request": sc["inner_method"] == "HEAD", "inside_tunnel": True},
+                              "msg": f"stream inside the tunnel containing an error page does not parse cleanly: "
+                                     f"{ip.status} {ip.reason}; rest={ip.rest[:100]!r}"})
+            elif len(rp.msgs) > npre and rp.msgs[npre].status >= 400:
+                # A non-2xx answer to a CONNECT in regular mode never comes from an origin (and no addon answers in
+                # these scenarios): mitmproxy made it.  The statement is about HTML error pages: an answer that is an
+                # HTML document, or says it is one, is judged as a page (declared type, escaping, framing); a plain
+                # text answer that does not claim to be HTML is not a page and is left alone.
+                m = rp.msgs[npre]
+                bump("connect_refused_response")
+                eager = sc["options"]["connection_strategy"] == "eager"
+                if sc["kind"] == "connect_tunnel_fail" and eager:
+                    bump("connect_fail_eager_response")
+                    if MARK.search(m.body):
+                        bump("connect_fail_eager_marker_in_response")
+                        if sc.get("errsrc") == "hook_markup":
+                            bump("connect_fail_eager_hook_error_text")
+                        if sc.get("markup_host"):
+                            bump("connect_fail_eager_markup_host")
+                ct = (m.get(b"content-type") or b"").lower()
+                declares_html = ct.startswith((b"text/html", b"application/xhtml"))
+                # (the markers never contain these elements)
+                is_html_doc = re.search(rb"<\s*(!doctype\s+html|html|head|body|title|h1)\b", m.body, re.I) is not None
+                if declares_html or is_html_doc:
+                    bump("connect_refused_html_page")
+                    if not any(x is m for x in pages):
+                        pages.append(m)
+                else:
+                    bump("connect_refused_plain_text")
         if any_page and rp.status != "ok":
             v.append({"class": "error_page_misframed", "key": {"status": rp.status, "reason": re.sub(r"[^a-zA-Z ].*$", "", rp.reason)[:40],
                                                                  "head_request": sc["method"] == "HEAD",
